@@ -160,7 +160,7 @@ func TestC14Regexps(t *testing.T) {
 	rapidCheck(t, col, func(rt *rapid.T) {
 		var p string
 		if rapid.Bool().Draw(rt, "validpat") {
-			p = rapid.SampledFrom([]string{"a", "^a+$", "b|c", "[0-9]+", `\d+`, `a\.b`, "x/y", "(ab)+", "狐", `\s*é`, "a b", `^\w+@\w+$`, "(?:a)b", "(?i)q", "(?i", "(?", "(?im", "(?:a", "(?P<n>a)"}).Draw(rt, "pat")
+			p = rapid.SampledFrom([]string{"a", "^a+$", "b|c", "[0-9]+", `\d+`, `a\.b`, "x/y", "(ab)+", "狐", `\s*é`, "a b", `^\w+@\w+$`, "(?:a)b", "(?i)q", "(?i", "(?", "(?im", "(?:a", "(?P<n>a)", "(?:é)", "(?:狐|x)b", "(?i)é"}).Draw(rt, "pat")
 		} else {
 			p = drawText(rt, "pattext", 8)
 			p = strings.ReplaceAll(p, "\x00", "")
